@@ -1,9 +1,12 @@
 #!/bin/sh
-# try_seed.sh <ID> <X> [tier] : applies a seeded change to /repo, runs the check, and undoes it straight afterwards.
+# try_seed.sh <ID> <X> [tier] : applies a seeded change to a private scratch worktree of /repo's HEAD (never to /repo itself), runs
+# the check of its property against that worktree (SCARED_REPO), and removes the worktree. Evidence of the mutated run goes to a scratch directory.
 ID=$1; X=$2; T=${3:-quick}
 D=/verif/seeded/$ID/$X; [ -f $D/patch.diff ] || D=${WT:-/tmp/wt}/$ID/_seed/$X
-cd /repo && git apply $D/patch.diff || { echo "patch does not apply"; exit 3; }
-cd /verif && ./check $ID $T > /tmp/try_${ID}_${X}.log 2>&1; RC=$?
-git -C /repo checkout -- .
+W=/tmp/try_wt_${ID}_${X}_$$
+git -C /repo worktree add --detach $W HEAD >/dev/null 2>&1 || { echo "cannot create worktree"; exit 3; }
+cd $W && git apply $D/patch.diff || { echo "patch does not apply"; git -C /repo worktree remove --force $W; exit 3; }
+cd /verif && SCARED_REPO=$W VERIF_EVIDENCE_DIR=$W.evidence ./check $ID $T > /tmp/try_${ID}_${X}.log 2>&1; RC=$?
+git -C /repo worktree remove --force $W; rm -rf $W.evidence
 grep -E "VIOLATION|KNOWN-FINDING|INCONCLUSIVE|HARNESS-ERROR|UNREPRODUCED|$ID $T" /tmp/try_${ID}_${X}.log | cut -c1-400 | head -12
 echo "exit=$RC"
